@@ -540,6 +540,16 @@ func c11TwinSets() [][]c1xLit {
 // plain `v == v`; every twin set in every layout - and a random part (quick 60 per kind,
 // thorough 2500 per kind).
 func c11RepCases(r *rand.Rand, t string) []*Case {
+	out := c11RepOnlyCases(r, t)
+	// c11_once.go: drawn after the repetition stream (c11.Generate appends what this function
+	// returns as the last of its streams)
+	out = append(out, c11ComplexBoundaryCases(r, t)...)
+	out = append(out, c11OnceCases(r, t)...)
+	return out
+}
+
+// c11RepOnlyCases: the cases of stream "repeat".
+func c11RepOnlyCases(r *rand.Rand, t string) []*Case {
 	var out []*Case
 	for _, set := range c11TwinSets() {
 		lits := append(append([]c1xLit{}, set...), set...)
@@ -719,12 +729,35 @@ func c11RepCount(lits []c1xLit, l c1xLit) int {
 	return n
 }
 
+// c11RepCallbacks makes the function handed to the ...Func form of occurrence i.
+type c11RepCallbacks struct {
+	Lit  func(i int) func() interface{}
+	Rune func(i int) func() rune
+	Byte func(i int) func() byte
+}
+
 // c11RepDirect builds the render directly on the implementation; occurrence i goes through
 // the ...Func form when fn(i).  Occurrences of `list` / `values` / `append` statements are
 // added as *Group methods inside a ...Func callback when viaGroup, as package-level functions
 // otherwise; those of `decl` and `eq` as *Statement methods (the first operand of `eq` through
 // Add of a package-level function).  It returns the bytes and the number of callbacks called.
 func c11RepDirect(groups []c11RepGroup, lits []c1xLit, plain, noformat, viaGroup bool, fn func(i int) bool) (out string, calls int, msg string) {
+	cb := c11RepCallbacks{
+		Lit:  func(i int) func() interface{} { return func() interface{} { calls++; return lits[i].V } },
+		Rune: func(i int) func() rune { return func() rune { calls++; return lits[i].V.(rune) } },
+		Byte: func(i int) func() byte { return func() byte { calls++; return lits[i].V.(byte) } },
+	}
+	outs, msg := c11RepBuild(groups, lits, plain, noformat, viaGroup, fn, cb, 1, nil)
+	if msg != "" {
+		return "", calls, msg
+	}
+	return outs[0], calls, ""
+}
+
+// c11RepBuild is c11RepDirect with the callbacks of the ...Func forms supplied by the caller
+// (cb) and the finished object rendered `renders` times (one output each); built (may be nil)
+// is called once between building and the first render.
+func c11RepBuild(groups []c11RepGroup, lits []c1xLit, plain, noformat, viaGroup bool, fn func(i int) bool, cb c11RepCallbacks, renders int, built func()) (outs []string, msg string) {
 	defer func() {
 		if r := recover(); r != nil {
 			msg = fmt.Sprintf("panic in the direct build: %v", r)
@@ -735,17 +768,17 @@ func c11RepDirect(groups []c11RepGroup, lits []c1xLit, plain, noformat, viaGroup
 		switch l.Kind {
 		case "rune":
 			if fn(i) {
-				return jen.LitRuneFunc(func() rune { calls++; return l.V.(rune) })
+				return jen.LitRuneFunc(cb.Rune(i))
 			}
 			return jen.LitRune(l.V.(rune))
 		case "byte":
 			if fn(i) {
-				return jen.LitByteFunc(func() byte { calls++; return l.V.(byte) })
+				return jen.LitByteFunc(cb.Byte(i))
 			}
 			return jen.LitByte(l.V.(byte))
 		}
 		if fn(i) {
-			return jen.LitFunc(func() interface{} { calls++; return l.V })
+			return jen.LitFunc(cb.Lit(i))
 		}
 		return jen.Lit(l.V)
 	}
@@ -754,17 +787,17 @@ func c11RepDirect(groups []c11RepGroup, lits []c1xLit, plain, noformat, viaGroup
 		switch l.Kind {
 		case "rune":
 			if fn(i) {
-				return s.LitRuneFunc(func() rune { calls++; return l.V.(rune) })
+				return s.LitRuneFunc(cb.Rune(i))
 			}
 			return s.LitRune(l.V.(rune))
 		case "byte":
 			if fn(i) {
-				return s.LitByteFunc(func() byte { calls++; return l.V.(byte) })
+				return s.LitByteFunc(cb.Byte(i))
 			}
 			return s.LitByte(l.V.(byte))
 		}
 		if fn(i) {
-			return s.LitFunc(func() interface{} { calls++; return l.V })
+			return s.LitFunc(cb.Lit(i))
 		}
 		return s.Lit(l.V)
 	}
@@ -773,19 +806,19 @@ func c11RepDirect(groups []c11RepGroup, lits []c1xLit, plain, noformat, viaGroup
 		switch l.Kind {
 		case "rune":
 			if fn(i) {
-				g.LitRuneFunc(func() rune { calls++; return l.V.(rune) })
+				g.LitRuneFunc(cb.Rune(i))
 			} else {
 				g.LitRune(l.V.(rune))
 			}
 		case "byte":
 			if fn(i) {
-				g.LitByteFunc(func() byte { calls++; return l.V.(byte) })
+				g.LitByteFunc(cb.Byte(i))
 			} else {
 				g.LitByte(l.V.(byte))
 			}
 		default:
 			if fn(i) {
-				g.LitFunc(func() interface{} { calls++; return l.V })
+				g.LitFunc(cb.Lit(i))
 			} else {
 				g.Lit(l.V)
 			}
@@ -837,27 +870,37 @@ func c11RepDirect(groups []c11RepGroup, lits []c1xLit, plain, noformat, viaGroup
 		}
 		panic("c11: bad skeleton " + g.Skel)
 	}
-	buf := &bytes.Buffer{}
-	var err error
+	var render func(buf *bytes.Buffer) error
 	if plain {
-		err = stmt(groups[0]).Render(buf)
+		s := stmt(groups[0])
+		render = func(buf *bytes.Buffer) error { return s.Render(buf) }
 	} else {
 		f := jen.NewFile("p")
 		f.NoFormat = noformat
 		for _, g := range groups {
 			f.Add(stmt(g))
 		}
-		err = f.Render(buf)
+		render = func(buf *bytes.Buffer) error { return f.Render(buf) }
 	}
-	if err != nil {
-		return "", calls, "error in the direct build: " + err.Error()
+	if built != nil {
+		built()
 	}
-	return buf.String(), calls, ""
+	for k := 0; k < renders; k++ {
+		buf := &bytes.Buffer{}
+		if err := render(buf); err != nil {
+			return outs, "error in the direct build: " + err.Error()
+		}
+		outs = append(outs, buf.String())
+	}
+	return outs, ""
 }
 
 func c11RepOracle(c *Case, got []hist.Obs) string {
 	lits := c.Meta["lits"].([]c1xLit)
 	groups := c.Meta["rep"].([]c11RepGroup)
+	if _, once := c.Meta["once"]; once {
+		return c11OnceOracle(c, got) // c11_once.go
+	}
 	plain, _ := c.Meta["plain"].(bool)
 	noformat, _ := c.Meta["noformat"].(bool)
 	src, msg := c1xOutput(got)
@@ -907,6 +950,9 @@ func c11RepOracle(c *Case, got []hist.Obs) string {
 
 // c11RepShrink: drop one occurrence (keeping at least two literals), or keep one statement.
 func c11RepShrink(c *Case) []*Case {
+	if _, once := c.Meta["once"]; once {
+		return nil
+	}
 	lits := c.Meta["lits"].([]c1xLit)
 	groups := c.Meta["rep"].([]c11RepGroup)
 	plain, _ := c.Meta["plain"].(bool)
